@@ -333,6 +333,7 @@ mutual
 def PNode.need : PNode → Nat
   | .seq _ _ _ items => items.need + 2
   | .map _ _ _ es => es.need + 2
+  | .anchored _ n => n.need + 1
   | _ => 1
 def PItems.need : PItems → Nat
   | .nil => 1
